@@ -158,7 +158,8 @@ Qed.
 Definition TInv (pre : list label) (sp : sstate) (t : tid) : Prop :=
   match sget sp t with
   | SIdle => True
-  | SWPending b => exists pre1 pre2 b0, pre = pre1 ++ LInvW t b0 :: pre2 /\ b = dedupe b0 /\ no_inv t pre2
+  | SWPending b => exists pre1 pre2 b0, pre = pre1 ++ LInvW t b0 :: pre2 /\ b = dedupe b0 /\ no_inv t pre2 /\
+                                         (forall s, ~ In (LWPublish t s) pre2)
   | SWDone => exists pre1 pre2 pre3 b0 s,
       pre = pre1 ++ LInvW t b0 :: pre2 ++ LWPublish t s :: pre3 /\ no_inv t pre2 /\ no_inv t pre3 /\
       dbof (pre1 ++ LInvW t b0 :: pre2 ++ [LWPublish t s]) = dbof (pre1 ++ LInvW t b0 :: pre2) ++ [(s, dedupe b0)]
@@ -185,12 +186,13 @@ Qed.
 (* a label that leaves thread t's specification state alone extends the last segment *)
 Lemma tinv_extend pre sp sp' t l :
   sget sp' t = sget sp t -> not_inv_of t l ->
-  (forall k x, l <> LScanNext t (Some (k, x))) ->
+  (forall k x, l <> LScanNext t (Some (k, x))) -> (forall s, l <> LWPublish t s) ->
   TInv pre sp t -> TInv (pre ++ [l]) sp' t.
 Proof.
-  unfold TInv. intros Hs Hl Hsc. rewrite Hs. destruct (sget sp t) as [|b| |q|q v last]; auto.
-  - intros (pre1 & pre2 & b0 & -> & Hb & Hn). exists pre1, (pre2 ++ [l]), b0.
-    split; [now rewrite <- app_assoc|]. split; [exact Hb|now apply no_inv_snoc].
+  unfold TInv. intros Hs Hl Hsc Hpub. rewrite Hs. destruct (sget sp t) as [|b| |q|q v last]; auto.
+  - intros (pre1 & pre2 & b0 & -> & Hb & Hn & Hnp). exists pre1, (pre2 ++ [l]), b0.
+    split; [now rewrite <- app_assoc|]. split; [exact Hb|]. split; [now apply no_inv_snoc|].
+    intros s0 Hin. apply in_app_or in Hin. destruct Hin as [Hin|[E|[]]]; [eapply Hnp; eauto|]. eapply Hpub; eauto.
   - intros (pre1 & pre2 & pre3 & b0 & s & -> & H2 & H3 & Hdb). exists pre1, pre2, (pre3 ++ [l]), b0, s.
     split; [now rewrite <- !app_assoc; cbn; rewrite <- app_assoc|]. repeat split; auto. now apply no_inv_snoc.
   - intros (pre1 & pre2 & -> & Hn). exists pre1, (pre2 ++ [l]). split; [now rewrite <- app_assoc|now apply no_inv_snoc].
@@ -212,45 +214,47 @@ Proof.
   intros Hrun Hstep Hinv t.
   assert (Hrun' : srun sinit (pre ++ [l]) = Some sp') by (apply srun_snoc; eauto).
   (* labels the specification does not see *)
-  assert (Stutter : sp' = sp -> not_inv_of t l -> (forall k x, l <> LScanNext t (Some (k, x))) -> TInv (pre ++ [l]) sp' t).
-  { intros -> Hn Hs. apply (tinv_extend pre sp sp t l); auto. }
+  assert (Stutter : sp' = sp -> not_inv_of t l -> (forall k x, l <> LScanNext t (Some (k, x))) ->
+                    (forall s, l <> LWPublish t s) -> TInv (pre ++ [l]) sp' t).
+  { intros -> Hn Hs Hp. apply (tinv_extend pre sp sp t l); auto. }
   destruct l; cbn [sstep] in Hstep;
-    try (inversion Hstep; subst sp'; apply Stutter; [reflexivity|exact I|intros; discriminate]).
+    try (inversion Hstep; subst sp'; apply Stutter; [reflexivity|exact I|intros; discriminate|intros; discriminate]).
   - (* LInvW *) destruct (sget sp t0) eqn:E; try discriminate. inversion Hstep; subst sp'. clear Hstep.
     destruct (Pos.eq_dec t t0) as [->|Hne].
     + unfold TInv. rewrite sget_sset_same. exists pre, [], b. repeat split; auto using no_inv_nil.
-    + apply (tinv_extend pre sp _ t); [now apply sget_sset_other|cbn; congruence|intros; discriminate|apply Hinv].
+    + apply (tinv_extend pre sp _ t); [now apply sget_sset_other|cbn; congruence|intros; discriminate|intros; discriminate|apply Hinv].
   - (* LWPublish *) destruct (sget sp t0) eqn:E; try discriminate. destruct (db_max (s_db sp) <? s); [|discriminate].
     inversion Hstep; subst sp'. clear Hstep.
     destruct (Pos.eq_dec t t0) as [->|Hne].
-    + pose proof (Hinv t0) as X. unfold TInv in X. rewrite E in X. destruct X as (pre1 & pre2 & b0 & -> & Hb & Hn).
+    + pose proof (Hinv t0) as X. unfold TInv in X. rewrite E in X. destruct X as (pre1 & pre2 & b0 & -> & Hb & Hn & _).
       unfold TInv. rewrite sget_sset_same. exists pre1, pre2, [], b0, s. rewrite <- app_assoc. cbn [app].
       repeat split; auto using no_inv_nil. rewrite <- app_assoc in Hrun'. cbn [app] in Hrun'.
       rewrite (dbof_run _ _ Hrun'), (dbof_run _ _ Hrun). cbn [s_db sset]. now rewrite Hb.
-    + apply (tinv_extend pre sp _ t); [rewrite sget_sset_other by auto; reflexivity|exact I|intros; discriminate|apply Hinv].
+    + apply (tinv_extend pre sp _ t); [rewrite sget_sset_other by auto; reflexivity|exact I|intros; discriminate| |apply Hinv].
+      intros s0 Hc. inversion Hc. congruence.
   - (* LWRet *) destruct (sget sp t0) eqn:E; try discriminate. inversion Hstep; subst sp'. clear Hstep.
     destruct (Pos.eq_dec t t0) as [->|Hne].
     + unfold TInv. rewrite sget_sset_same. exact I.
-    + apply (tinv_extend pre sp _ t); [now apply sget_sset_other|exact I|intros; discriminate|apply Hinv].
+    + apply (tinv_extend pre sp _ t); [now apply sget_sset_other|exact I|intros; discriminate|intros; discriminate|apply Hinv].
   - (* LWRetF *) destruct (sget sp t0) eqn:E; try discriminate. inversion Hstep; subst sp'. clear Hstep.
     destruct (Pos.eq_dec t t0) as [->|Hne].
     + unfold TInv. rewrite sget_sset_same. exact I.
-    + apply (tinv_extend pre sp _ t); [now apply sget_sset_other|exact I|intros; discriminate|apply Hinv].
+    + apply (tinv_extend pre sp _ t); [now apply sget_sset_other|exact I|intros; discriminate|intros; discriminate|apply Hinv].
   - (* LInvR *) destruct (sget sp t0) eqn:E; try discriminate. inversion Hstep; subst sp'. clear Hstep.
     destruct (Pos.eq_dec t t0) as [->|Hne].
     + unfold TInv. rewrite sget_sset_same. exists pre, []. split; [reflexivity|apply no_inv_nil].
-    + apply (tinv_extend pre sp _ t); [now apply sget_sset_other|cbn; congruence|intros; discriminate|apply Hinv].
+    + apply (tinv_extend pre sp _ t); [now apply sget_sset_other|cbn; congruence|intros; discriminate|intros; discriminate|apply Hinv].
   - (* LSnap *) destruct (sget sp t0) eqn:E; try discriminate. inversion Hstep; subst sp'. clear Hstep.
     destruct (Pos.eq_dec t t0) as [->|Hne].
     + pose proof (Hinv t0) as X. unfold TInv in X. rewrite E in X. destruct X as (pre1 & pre2 & -> & Hn).
       unfold TInv. rewrite sget_sset_same. exists pre1, pre2, [], ts. rewrite <- app_assoc. cbn [app].
       repeat split; auto using no_inv_nil. now rewrite (dbof_run _ _ Hrun).
-    + apply (tinv_extend pre sp _ t); [now apply sget_sset_other|exact I|intros; discriminate|apply Hinv].
+    + apply (tinv_extend pre sp _ t); [now apply sget_sset_other|exact I|intros; discriminate|intros; discriminate|apply Hinv].
   - (* LRetGet *) destruct (sget sp t0) as [| | | |[k|lo hi] view last] eqn:E; try discriminate.
     destruct (ovalue_eqb r (db_value view k)); [|discriminate]. inversion Hstep; subst sp'. clear Hstep.
     destruct (Pos.eq_dec t t0) as [->|Hne].
     + unfold TInv. rewrite sget_sset_same. exact I.
-    + apply (tinv_extend pre sp _ t); [now apply sget_sset_other|exact I|intros; discriminate|apply Hinv].
+    + apply (tinv_extend pre sp _ t); [now apply sget_sset_other|exact I|intros; discriminate|intros; discriminate|apply Hinv].
   - (* LScanNext *) destruct (sget sp t0) as [| | | |[k|lo hi] view last] eqn:E; try discriminate.
     destruct (okv_eqb kv (db_scan_next view lo hi last)) eqn:Ek; [|discriminate]. inversion Hstep; subst sp'. clear Hstep.
     destruct (Pos.eq_dec t t0) as [->|Hne].
@@ -263,13 +267,13 @@ Proof.
         destruct kv as [[k x]|], (db_scan_next view lo hi last) as [[k' x']|]; cbn in Ek; try discriminate.
         -- rewrite Pos.eqb_refl. apply andb_prop in Ek. destruct Ek as [Ek _]. apply key_eqb_eq in Ek. now subst.
         -- reflexivity.
-    + apply (tinv_extend pre sp _ t); [now apply sget_sset_other|exact I| |apply Hinv].
+    + apply (tinv_extend pre sp _ t); [now apply sget_sset_other|exact I| |intros; discriminate|apply Hinv].
       intros k x Hc. inversion Hc. congruence.
   - (* LRetScan *) destruct (sget sp t0) as [| | | |[k|lo hi] view last] eqn:E; try discriminate.
     inversion Hstep; subst sp'. clear Hstep.
     destruct (Pos.eq_dec t t0) as [->|Hne].
     + unfold TInv. rewrite sget_sset_same. exact I.
-    + apply (tinv_extend pre sp _ t); [now apply sget_sset_other|exact I|intros; discriminate|apply Hinv].
+    + apply (tinv_extend pre sp _ t); [now apply sget_sset_other|exact I|intros; discriminate|intros; discriminate|apply Hinv].
 Qed.
 
 Lemma tinv_run pre : forall sp, srun sinit pre = Some sp -> forall t, TInv pre sp t.
@@ -349,3 +353,14 @@ Qed.
 
 Lemma srun_app_some sp a b sp' : srun sp (a ++ b) = Some sp' -> exists sp1, srun sp a = Some sp1.
 Proof. rewrite srun_app. destruct (srun sp a); [eauto|discriminate]. Qed.
+
+(* a write that failed returns without ever having been published: the database is what it was *)
+Theorem hist_wretf pre t sp' : srun sinit (pre ++ [LWRetF t]) = Some sp' ->
+  (exists pre1 pre2 b0, pre = pre1 ++ LInvW t b0 :: pre2 /\ no_inv t pre2 /\ (forall s, ~ In (LWPublish t s) pre2)) /\
+  dbof (pre ++ [LWRetF t]) = dbof pre.
+Proof.
+  intros H. pose proof H as H0. apply srun_snoc in H. destruct H as (sp & Hrun & Hstep).
+  pose proof (tinv_run pre sp Hrun t) as X. unfold TInv in X. cbn [sstep] in Hstep.
+  destruct (sget sp t) eqn:E; try discriminate. destruct X as (pre1 & pre2 & b0 & Hp & _ & Hn & Hnp).
+  split; [exists pre1, pre2, b0; auto|]. rewrite (dbof_run _ _ H0), (dbof_run _ _ Hrun). inversion Hstep. reflexivity.
+Qed.
